@@ -47,6 +47,7 @@ char *strncpy(char *d, const char *s, size_t n) { size_t i = 0; for (; i < n && 
 char *strcat(char *d, const char *s) { strcpy(d + strlen(d), s); return d; }
 char *strncat(char *d, const char *s, size_t n) { char *p = d + strlen(d); size_t i = 0; for (; i < n && s[i]; i++) p[i] = s[i]; p[i] = 0; return d; }
 char *strdup(const char *s) { size_t n = strlen(s) + 1; char *p = malloc(n); for (size_t i = 0; i < n; i++) p[i] = s[i]; return p; }
+char *xstrdup(const char *s) { return strdup(s); }  /* compat/xstring.cc: strdup that never returns NULL (allocation never fails here) */
 char *strndup(const char *s, size_t m) { size_t n = strnlen(s, m); char *p = malloc(n + 1); for (size_t i = 0; i < n; i++) p[i] = s[i]; p[n] = 0; return p; }
 char *strtok_r(char *s, const char *d, char **sv) { if (!s) s = *sv; s += strspn(s, d); if (!*s) { *sv = s; return 0; } char *e = s + strcspn(s, d); if (*e) { *e = 0; *sv = e + 1; } else *sv = e; return s; }
 static char *vf_strtok_sv; char *strtok(char *s, const char *d) { return strtok_r(s, d, &vf_strtok_sv); }
